@@ -120,6 +120,12 @@ _WIDE_EXTRA = [
     "</pre>",
     "[l]: <u>",
     "\\",
+    # container markers followed by whitespace only, three-level nesting
+    ">   ",
+    ">  ",
+    "-   ",
+    "> - > a",
+    "- > - a",
 ]
 # characters that are not plain CommonMark input: non-ASCII letters, pymarkdown's in-band
 # marker characters, a pragma line.  Not used for the CommonMark comparison (C03).
@@ -485,6 +491,14 @@ def focus_spaces(tier):
         ProductSpace(f"Br({b})", SIGMA_BRACKET, b, joiner=""),
         ProductSpace(f"Br({b})lrd", SIGMA_BRACKET, b, joiner="", template=INL_CONTEXTS[1]),
     ]
+
+
+# one or two trigger lines per fix level (0: md009/md010, 1: md019/md004/md046, 2: md048/md005, 3: md007, 5: md027)
+SIGMA_LEVELS = ["", "~~~", "```", "    a", ">  a", "* a", "   * a", "#  a"]
+
+
+def levels_space(tier):
+    return ProductSpace(f"B(levels,{6 if tier == 'thorough' else 4})", SIGMA_LEVELS, 6 if tier == "thorough" else 4, minlen=3)
 
 
 def mix_space(tier):
